@@ -563,9 +563,9 @@ def prove(ctx, prop_file, extra_targets=()):
             ctx.proof_ok = False
             ctx.proof_problems = problems + ["coqchk rejects %s: %s" % (mod, out[-400:])]
         elif "Axioms: <none>" not in " ".join(summary.split()):
-            tb.append("coqchk -o %s: %s" % (mod, " ".join(summary.split())[:600]))
+            ctx.coverage["trusted_base"].append("coqchk -o %s: %s" % (mod, " ".join(summary.split())[:600]))
         else:
-            tb.append("coqchk -o %s: Axioms: <none>; no type-in-type, no unsafe fixpoints, no assumed positivity" % mod)
+            ctx.coverage["trusted_base"].append("coqchk -o %s: Axioms: <none>; no type-in-type, no unsafe fixpoints, no assumed positivity" % mod)
     return ctx.proof_ok
 
 
